@@ -75,7 +75,14 @@ func workload(w *cbWorld, recoveryHeavy bool) {
 		if w.cfg.fine && len(w.sim.Runnable()) > 0 {
 			kinds = append(kinds, "step", "step", "step")
 		}
+		if !w.cfg.fine {
+			kinds = append(kinds, "rewrap")
+		}
 		switch rapid.SampledFrom(kinds).Draw(rt, "op") {
+		case "rewrap":
+			// the chain is re-assembled around the breaker (same handler): its state and metrics are unaffected
+			w.cb.Wrap(w.handler)
+			w.r.Probe("rewrapped")
 		case "arrive":
 			w.arrive()
 			runOne()
